@@ -6,6 +6,9 @@ from .state import State
 from .values import BOT, Arr, Bot, BoxU, Delta, Enum, Fn, FnPtr, Iter, Opaque, Ref, Scalar, Seq, Struct, Val
 
 
+INTERP = None  # set by the interpreter: gives the joiner read access through references
+
+
 class Joiner:
     def __init__(self, A, B, at, widen=None, first=True, type_of_cell=None):
         self.A = A
@@ -19,6 +22,7 @@ class Joiner:
         self.widen = widen
         self.first = first
         self._delta_cache = {}
+        self.merged = {}
 
     # ---- symbols
     def sym(self, a, b, path):
@@ -69,7 +73,8 @@ class Joiner:
             return Arr(es)
         if (ta is Seq or ta is Arr) and (tb is Seq or tb is Arr):
             sa_, sb_ = self.as_seq(a, self.A, path + ("A",)), self.as_seq(b, self.B, path + ("B",))
-            if sa_.kind != sb_.kind and not ({sa_.kind, sb_.kind} <= {"slice", "array"}):
+            byteish = {"str", "string"}
+            if sa_.kind != sb_.kind and (sa_.kind in byteish) != (sb_.kind in byteish):
                 return Opaque()
             ln = self.sym(sa_.len, sb_.len, path + ("len",))
             if sa_.elem is None:
@@ -80,10 +85,19 @@ class Joiner:
                 el = self.val(sa_.elem, sb_.elem, path + ("elem",))
             ef = tuple(f for f in sa_.efacts if f in sb_.efacts)
             data = sa_.data if sa_.data == sb_.data else None
-            return Seq(sa_.kind if sa_.kind == sb_.kind else "slice", ln, el, ef, data, sa_.prov | sb_.prov)
+            kind = sa_.kind if sa_.kind == sb_.kind else ("str" if sa_.kind in byteish else "slice")
+            return Seq(kind, ln, el, ef, data, sa_.prov | sb_.prov)
         if ta is Ref and tb is Ref:
             if a.cell == b.cell and a.path == b.path:
                 return a if a.mut == b.mut else Ref(a.cell, a.path, a.mut and b.mut)
+            if not a.mut and not b.mut and INTERP is not None and a.cell is not None and b.cell is not None and len(path) < 24:
+                # shared references to different places: point at a merged copy of the two pointees
+                va = INTERP.read(self.A, a.cell, a.path, ("jr", self.at) + path + ("A",))
+                vb = INTERP.read(self.B, b.cell, b.path, ("jr", self.at) + path + ("B",))
+                v = self.val(va, vb, path + ("*",))
+                cell = ("j", self.at, path)
+                self.merged[cell] = v
+                return Ref(cell, (), False)
             ts = []
             for r in (a, b):
                 if r.cell is None:
@@ -157,6 +171,7 @@ class Joiner:
         for c in B.cells:
             if c not in A.cells:
                 J.cells[c] = B.cells[c]
+        J.cells.update(self.merged)
         # intervals.  A symbol that no value of one side can reach is meaningless on that side's
         # paths: take the other side's interval instead of the hull.
         self.dead_in_a = set()
@@ -216,12 +231,28 @@ class Joiner:
                     if self.stale_b and self._mentions(name, v, self.stale_b):
                         continue
                     cj[k] = v
+        # definitions that do not survive are turned into equality facts on their side, so that the
+        # relation can still be kept as a (conditional) fact
+        for X in (A, B):
+            lost = [k for k in X.lin if k not in J.lin and k not in phi_ids]
+            if lost:
+                live = X.live_syms()
+                extra = []
+                for k in lost:
+                    if k in live:
+                        e = Lin({k: 1}).sub(X.lin[k])
+                        extra.append(e)
+                        extra.append(e.scale(-1))
+                if extra:
+                    X = X  # facts sets are copied per state; safe to extend this side's set
+                    X.facts = set(X.facts) | set(extra)
         # facts: keep what the other side entails (after mapping phi-paired symbols)
         mab = {a: b for _, a, b in self.phis}
         mba = {b: a for _, a, b in self.phis}
         self._facts(A, B, self.sa, mab, self.stale_a, self.dead_in_b)
         self._facts(B, A, self.sb, mba, self.stale_b, self.dead_in_a)
         # candidate order relations for integer phis (Houdini): p vs common symbols, p vs other phis
+        self._new_facts = []
         self._phi_relations(mab, mba)
         # definitional equalities for phis
         for p, a, b in self.phis:
@@ -270,6 +301,8 @@ class Joiner:
                 if w:
                     J.when[p] = w
         J.log = A.log if A.log == B.log else _merge_logs(A.log, B.log)
+        for f in self._new_facts:
+            J.add_fact(f)  # also tightens intervals
         return J
 
     def _phi_relations(self, mab, mba):
@@ -298,7 +331,7 @@ class Joiner:
                         ga = A.term(a).sub(ta).scale(sign).addc(c)
                         gb = B.term(b).sub(tb).scale(sign).addc(c)
                         if A.entails(ga) and B.entails(gb):
-                            J.facts.add(J.expand(Lin({p: 1}).sub(Lin({t: 1})).scale(sign).addc(c)))
+                            self._new_facts.append(Lin({p: 1}).sub(J.term(t)).scale(sign).addc(c))
                             break
         for i in range(len(ints)):
             for j in range(i + 1, len(ints)):
@@ -309,7 +342,7 @@ class Joiner:
                         ga = A.term(pa).sub(A.term(qa)).scale(sign).addc(c)
                         gb = B.term(pb).sub(B.term(qb)).scale(sign).addc(c)
                         if A.entails(ga) and B.entails(gb):
-                            J.facts.add(Lin({p: 1}).sub(Lin({q: 1})).scale(sign).addc(c))
+                            self._new_facts.append(Lin({p: 1}).sub(Lin({q: 1})).scale(sign).addc(c))
                             break
 
     @staticmethod
